@@ -121,28 +121,15 @@ Definition is_some {A} (o : option A) : bool := match o with Some _ => true | No
 
 Inductive fres := FErr | FNum (m e : Z) | FNone.
 
-(* Loader::format_name: the YAML loader proper, or the JSON shim of load_json *)
-Inductive fmt := FYaml | FJson.
-Definition is_yaml (f : fmt) : bool := match f with FYaml => true | FJson => false end.
-
-(* fn fits_f64: f64::MIN <= m * 10^e <= f64::MAX, with f64::MAX = 2^1024 - 2^971 *)
-Definition f64_max_z : Z := (2 ^ 1024 - 2 ^ 971)%Z.
-Definition fits_f64 (m e : Z) : bool :=
-  if (0 <=? e)%Z then (Z.abs m * 10 ^ e <=? f64_max_z)%Z
-  else (Z.abs m <=? f64_max_z * 10 ^ (- e))%Z.
-
 (* fn unsigned: the digits after a radix prefix or a plus sign must not start with a sign *)
 Definition is_sign (c : N) : bool := (c =? c_plus) || (c =? c_minus).
 Definition unsigned (r : str) : bool := match r with c :: _ => negb (is_sign c) | [] => true end.
 
-(* fn parse_float: in YAML a number that does not fit f64 stays a string *)
-Definition parse_float (f : fmt) (v : str) : fres :=
+(* fn parse_float (its format argument only names the format in error messages) *)
+Definition parse_float (v : str) : fres :=
   if mem v infnan_spellings then FErr
   else if existsb is_digit v then
-    match from_sci v with
-    | Some (m, e) => if is_yaml f && negb (fits_f64 m e) then FNone else FNum m e
-    | None => FNone
-    end
+    match from_sci v with Some (m, e) => FNum m e | None => FNone end
   else FNone.
 
 Definition prefixed_int (p : str) (radix : N) (v : str) : option Z :=
@@ -152,7 +139,7 @@ Definition prefixed_int (p : str) (radix : N) (v : str) : option Z :=
   end.
 
 (* fn parse: a plain scalar without a (core schema) tag *)
-Definition resolve_plain (f : fmt) (v : str) : sres :=
+Definition resolve_plain (v : str) : sres :=
   match prefixed_int s_0x 16 v with
   | Some i => RNum i 0
   | None =>
@@ -167,7 +154,7 @@ Definition resolve_plain (f : fmt) (v : str) : sres :=
       else if mem v false_spellings then RBool false
       else match parse_i64 v with
            | Some i => RNum i 0
-           | None => match parse_float f v with
+           | None => match parse_float v with
                      | FErr => RErr
                      | FNum m e => RNum m e
                      | FNone => RStr v
@@ -176,14 +163,14 @@ Definition resolve_plain (f : fmt) (v : str) : sres :=
   end end end.
 
 (* fn push_scalar_with_err: what the scalar event denotes *)
-Definition resolve (f : fmt) (st : style) (tg : option tag) (v : str) : sres :=
+Definition resolve (st : style) (tg : option tag) (v : str) : sres :=
   match st with
   | Plain =>
       match tg with
-      | None | Some TagNonCore => resolve_plain f v
+      | None | Some TagNonCore => resolve_plain v
       | Some TagBool => if str_eqb v s_true then RBool true else if str_eqb v s_false then RBool false else RErr
       | Some TagInt => match parse_i64 v with Some i => RNum i 0 | None => RErr end
-      | Some TagFloat => match parse_float f v with FNum m e => RNum m e | _ => RErr end
+      | Some TagFloat => match parse_float v with FNum m e => RNum m e | _ => RErr end
       | Some TagNull => if str_eqb v s_tilde || str_eqb v s_null then RNull else RErr
       | Some TagStr => RStr v
       | Some TagCoreOther => RErr
@@ -200,14 +187,12 @@ Definition keyword_spelling (v : str) : bool :=
   mem v null_spellings || mem v true_spellings || mem v false_spellings.
 Definition dec_i64_spelling (v : str) : bool := is_some (parse_i64 v).
 Definition infnan_spelling (v : str) : bool := mem v infnan_spellings.
-Definition sci_spelling (f : fmt) (v : str) : bool :=
-  existsb is_digit v
-  && match from_sci v with Some (m, e) => negb (is_yaml f) || fits_f64 m e | None => false end.
+Definition sci_spelling (v : str) : bool := existsb is_digit v && is_some (from_sci v).
 
 (* a plain untagged scalar spelled like this does not denote a string *)
-Definition nonstring_spelling (f : fmt) (v : str) : bool :=
+Definition nonstring_spelling (v : str) : bool :=
   radix_int_spelling v || plus_int_spelling v || keyword_spelling v || dec_i64_spelling v
-  || infnan_spelling v || sci_spelling f v.
+  || infnan_spelling v || sci_spelling v.
 
 (* ---------------------------------------------------------------- the number spellings, as a grammar *)
 
@@ -245,7 +230,7 @@ Definition sci_grammar (v : str) : bool :=
   end.
 
 
-(* ---------------------------------------------------------------- spellings beyond f64 *)
+(* ---------------------------------------------------------------- the known class *)
 
 (* f64::from_str rounds to nearest-even: a decimal overflows to infinity iff its magnitude is at
    least 2^1024 - 2^970 (half an ulp above f64::MAX) *)
@@ -260,6 +245,6 @@ Definition float_overflow_spelling (v : str) : bool :=
   && match from_sci v with Some (m, e) => overflows_f64 m e | None => false end.
 
 (* The contract an emitter must meet for strings to survive: whenever it writes a string as a
-   plain scalar, that spelling must denote a string for the YAML loader. *)
+   plain scalar, that spelling must denote a string for the loader. *)
 Definition emitter_meets_contract (writes_plain : str -> bool) : Prop :=
-  forall s, writes_plain s = true -> nonstring_spelling FYaml s = false.
+  forall s, writes_plain s = true -> nonstring_spelling s = false.
